@@ -39,6 +39,8 @@ func checkC02(c *Ctx) {
 	c.Rule("R2.6", "number formatting: strconv base 10 / shortest 'f' on every path; NaN/±Inf arms agree with their literals", 4)
 	c.Rule("R2.7", "error expansion: message, Causes, Verbose-if-different; nil causes skipped", 4)
 	c.Rule("R2.8", "reflection fallback: HTML escaping off, null shortcut, reset before / trim after", 3)
+	c.Rule("R2.14", "short caller representation: everything after the penultimate '/', the whole path with fewer than two separators", 1)
+	c2TrimmedPath(c, "R2.14")
 	c.Rule("R2.13", "what decodes must first parse: every path of every encoder method writes exactly one well-formed member / element / entry (token grammar)", 20)
 	c1Grammar(c, "R2.13")
 	c.Rule("R2.9", "nesting: objects/arrays/namespaces are closed at the level they were opened on every path (incl. marshaler errors)", 10)
@@ -756,4 +758,159 @@ func c2LevelEncoders(c *Ctx) {
 		}
 		c.Check(!trunc && len(seqs) > 0 && len(bad) == 0, "R2.12", fn.String(), "case-agrees", fn.Pos(), "on each of the %d paths (helpers inline) exactly one string is emitted and every source consulted is the %s-case one (Level.String / CapitalString and the matching colour table): %v", len(seqs), want, uniqSorted(bad))
 	}
+}
+
+// c2TrimmedPath: by bounded concrete exploration of EntryCaller.TrimmedPath on a 3-byte file name with every placement
+// of the separators the code looks for: the short caller keeps everything after the penultimate '/', and the whole
+// path when there are fewer than two separators (a leading '/' is a separator like any other).
+func c2TrimmedPath(c *Ctx, rule string) {
+	fn := c.Method(CorePath, "EntryCaller", "TrimmedPath")
+	if !c.Anchor(rule, "zapcore.EntryCaller.TrimmedPath", fn != nil && len(fn.Params) == 1) {
+		return
+	}
+	const N = 3
+	rn := fn.Params[0].Name()
+	iv := func(f SliceFact) string { return "[" + itoa(int(f.Lo)) + "," + itoa(int(f.Hi)) + ")" }
+	seqs, trunc := ConcPaths(fn, ConcCfg{
+		Conc: func(d string) (int64, bool) {
+			if d == rn+".Defined" {
+				return 1, true
+			}
+			return 0, false
+		},
+		SliceLenOf: func(d string) (int64, bool) { return N, d == rn+".File" },
+		Inline:     func(h *ssa.Function) bool { return h.Name() != "FullPath" },
+		Fork: func(in ssa.Instruction, st *ConcState) []ConcAlt {
+			x, ok := in.(*ssa.Call)
+			if !ok {
+				return nil
+			}
+			a := Args(x)
+			switch {
+			case IsCallTo(x, "strings.LastIndexByte") && len(a) == 2:
+				if k, known := st.Int(a[1]); !known || k != '/' {
+					return nil
+				}
+			case IsCallTo(x, "strings.LastIndex") && len(a) == 2:
+				if s, isC := ConstString(a[1]); !isC || s != "/" {
+					return nil
+				}
+			default:
+				return nil
+			}
+			f, ok := st.SliceOf(a[0])
+			if !ok || f.Key != rn+".File" {
+				return nil
+			}
+			alts := []ConcAlt{{Ev: "last" + iv(f) + "=none", Ints: map[ssa.Value]int64{x: -1}}}
+			for k := f.Lo; k < f.Hi; k++ {
+				alts = append(alts, ConcAlt{Ev: "last" + iv(f) + "=" + itoa(int(k)), Ints: map[ssa.Value]int64{x: k - f.Lo}})
+			}
+			return alts
+		},
+		Event: func(in ssa.Instruction, st *ConcState) string {
+			switch x := in.(type) {
+			case *ssa.Call:
+				a := Args(x)
+				switch {
+				case IsCallTo(x, "(go.uber.org/zap/zapcore.EntryCaller).FullPath"):
+					return "full"
+				case IsCallTo(x, "(*go.uber.org/zap/buffer.Buffer).AppendString", "(*go.uber.org/zap/buffer.Buffer).WriteString") && len(a) == 2:
+					if f, ok := st.SliceOf(a[1]); ok && f.Key == rn+".File" {
+						return "out" + iv(f)
+					}
+					if _, isC := ConstString(a[1]); !isC {
+						return "out(?" + st.Desc(a[1]) + ")"
+					}
+				case IsCallTo(x, "strings.Index", "strings.IndexByte", "strings.Split", "strings.SplitN", "strings.Cut", "strings.Count", "path.Base", "path.Dir", "path/filepath.Base", "path/filepath.Dir"):
+					return "search?" + CalleeFunc(x).Name()
+				}
+			case *ssa.Return:
+				if f, ok := st.SliceOf(x.Results[0]); ok && f.Key == rn+".File" {
+					return "ret" + iv(f)
+				}
+				return "ret"
+			}
+			return ""
+		},
+	})
+	if trunc || len(seqs) == 0 {
+		c.Und(rule, fn.String(), "keeps-last-two-elements", fn.Pos(), "path exploration incomplete (%d sequences)", len(seqs))
+		return
+	}
+	var bad, und []string
+	worlds := map[string]bool{}
+	for _, sq := range seqs {
+		toks := strings.Split(sq, " ; ")
+		// replay: which separators this path assumed, and what it produced
+		expectSearch := "[0," + itoa(N) + ")"
+		k1, k2 := -2, -2 // -2 not looked for, -1 none
+		out := ""
+		why := ""
+		for _, t := range toks {
+			switch {
+			case strings.HasPrefix(t, "search?") || strings.HasPrefix(t, "out(?"):
+				und = append(und, sq)
+			case strings.HasPrefix(t, "last"):
+				eq := strings.LastIndex(t, "=")
+				rng, val := t[4:eq], t[eq+1:]
+				k := -1
+				if val != "none" {
+					k = int(parseIntOr(val, -1))
+				}
+				switch {
+				case k1 == -2:
+					if rng != expectSearch {
+						why = "the last separator is searched in " + rng + ", not in the whole file name"
+					}
+					k1 = k
+				case k2 == -2:
+					if want := "[0," + itoa(k1) + ")"; rng != want {
+						why = "the penultimate separator is searched in " + rng + ", expected " + want + " (everything before the last one)"
+					}
+					k2 = k
+				default:
+					why = "a third search"
+				}
+			case t == "full":
+				out = "full"
+			case strings.HasPrefix(t, "out["):
+				out = t[3:]
+			case strings.HasPrefix(t, "ret["):
+				out = t[3:]
+			}
+		}
+		// the world this path stands for: last separator at k1 (or none), the one before it at k2 (or none / not looked for)
+		want := "full"
+		switch {
+		case k1 < 0:
+		case k2 == -2:
+			// the code did not look for a second separator although a first exists: only right when none can exist
+			if k1 == 0 {
+				want = "full"
+			} else {
+				want = "?" // it cannot know
+			}
+		case k2 >= 0:
+			want = "[" + itoa(k2+1) + "," + itoa(N) + ")"
+		}
+		worlds[itoa(k1)+"/"+itoa(k2)] = true
+		if why == "" && want == "?" {
+			why = "a separator was found at " + itoa(k1) + " but the one before it is never looked for"
+		}
+		if why == "" && out != want {
+			why = "with the last '/' at " + itoa(k1) + " and the one before at " + itoa(k2) + " (-1: none, -2: not looked for) the caller should be " + want + " of the file name, got " + out
+		}
+		if why != "" {
+			bad = append(bad, why+" ("+sq+")")
+		}
+	}
+	if len(und) > 0 && len(bad) == 0 {
+		c.Und(rule, fn.String(), "keeps-last-two-elements", fn.Pos(), "the file name is taken apart in a way the model does not know: %s", und[0])
+		return
+	}
+	if len(bad) > 2 {
+		bad = append(bad[:2:2], "… "+itoa(len(bad)-2)+" more")
+	}
+	c.Check(len(bad) == 0 && len(worlds) >= 5, rule, fn.String(), "keeps-last-two-elements", fn.Pos(), "over %d paths on a %d-byte file name (every position of the last and of the penultimate '/', or none): the short caller is everything after the penultimate separator, and the whole path when there are fewer than two: %v", len(seqs), N, bad)
 }
